@@ -1553,3 +1553,65 @@ theorem MotionTie_transform_move_xf (c : GscribModel.Transform.Core) (s : BSt) (
     have hd : decide (DistanceMode.ABSOLUTE = DistanceMode.RELATIVE) = false := by decide
     simp only [hf, dmOf, cond_false, hq, hd, Bool.false_eq_true, if_false, xfOf_ofV, PointTie_transform_combine,
       GscribModel.Transform.Core.transformMove, GscribModel.Transform.Core.moveVector, GscribModel.Transform.Core.toAbsolute]
+
+namespace GscribModel.MotionTie
+open GscribModel.PointTie
+
+theorem okAxes_none (bd : Bounds) (p : Pt) (hb : bd.axes = none) : bd.okAxes p = true := by
+  simp [Bounds.okAxes, hb]
+
+/-- `GCodeBuilder._transform_move` under the model's transformer, no axes bounds set: the C04 model's move vector and target -/
+theorem builder_transform_move_xf (c : GscribModel.Transform.Core) (b : B) (req : GscribModel.Transform.Pt) (h : Rat)
+    (hax : b.axes = ofT c.axes) (hrel : b.rel = c.rel) (hb : b.bounds.axes = none) :
+    GCodeBuilder._transform_move_T (xfOf c.tr) (absB' b [] []) (ofT req) h =
+      (absB' b [] [], .ok (ofT (c.transformMove req).1, ofV (c.transformMove req).2)) := by
+  have h1 : (absB' b [] [])._current_axes = ofT c.axes := hax
+  have h2 : (absB' b [] [])._distance_mode = dmOf c.rel := by
+    show (bif b.rel then DistanceMode.RELATIVE else DistanceMode.ABSOLUTE) = dmOf c.rel
+    rw [hrel]; rfl
+  have hbd : (absB' b [] []).state._user_bounds = b.bounds := rfl
+  simp only [GCodeBuilder._transform_move_T, MotionTie_transform_move_xf c _ req h h1 h2, validatePt, hbd, okAxes_none _ _ hb]
+  simp
+end GscribModel.MotionTie
+
+open GscribModel.MotionTie GscribModel.PointTie in
+/-- the texts the motion theorems are about are the general texts at `T := id` -/
+theorem MotionTie_move_chain_id (s : BSt) (p : Pt) (k : VParams) (h : Rat) :
+    GCodeBuilder._transform_move s p h = GCodeBuilder._transform_move_T applyTransformId s p h ∧
+    GCodeCore.move s p k h = GCodeCore.move_T applyTransformId s p k h ∧
+    GCodeCore.rapid s p k h = GCodeCore.rapid_T applyTransformId s p k h := ⟨rfl, rfl, rfl⟩
+
+open GscribModel.MotionTie GscribModel.PointTie in
+/-- **`move()` / `rapid()` under any transform are the C04 model's `go`**: from a builder whose tracked position and distance
+    mode are the model's (no hooks, no axes bounds, no extra words), the translated command succeeds, writes exactly one
+    `G1` / `G0` whose axis words are the model's move vector - the image of the target in absolute mode, the linear image of
+    the displacement in relative mode, unmentioned and unmoved axes left out - and tracks the model's new position. -/
+theorem MotionTie_go_xf (c : GscribModel.Transform.Core) (b : B) (rapid : Bool) (req : GscribModel.Transform.Pt) (h : Rat)
+    (hax : b.axes = ofT c.axes) (hrel : b.rel = c.rel) (hh : b.hooks = []) (hb : b.bounds.axes = none) :
+    let g := if rapid then GCodeCore.rapid_T (xfOf c.tr) (absB b) (ofT req) [] h else GCodeCore.move_T (xfOf c.tr) (absB b) (ofT req) [] h
+    g.2 = none ∧ g.1._current_axes = ofT (c.go rapid req).1.axes ∧
+    g.1.out.map conv = [([if rapid then "G0" else "G1"], ofT (c.transformMove req).1, [])] := by
+  have e0 : absB b = absB' b [] [] := rfl
+  have hd : DoubleFS [] := by
+    intro ws hw; cases hw
+    refine ⟨?_, ?_⟩
+    · intro f hf; cases hf
+    · intro s hs; cases hs
+  have hemp : b.hooks.isEmpty = true := by rw [hh]; rfl
+  have hd' : DoubleFS (if b.hooks.isEmpty then [] else applyHooks b h []) := by rw [hemp]; exact hd
+  have hfin : VParams.fin? ([] : VParams) = some [] := rfl
+  have hok : b.okTrack [] = true := rfl
+  have htr : b.track [] = b := rfl
+  cases rapid
+  · simp only [Bool.false_eq_true, if_false, GCodeCore.move_T, processMoveParams, e0, builder_transform_move_xf c b req h hax hrel hb,
+      prepare_move_eq b [] [] _ (ofT req) [] h hd', hemp, if_true, prepared, hfin, hok, htr,
+      update_axes_eq b [] [] _ (ofT req) [] [] hfin, okAxes_none _ _ hb, write_eq]
+    refine ⟨trivial, ?_, ?_⟩
+    · rfl
+    · simp [absB', conv, partCodes, partAx, partWords]
+  · simp only [if_true, GCodeCore.rapid_T, processMoveParams, e0, builder_transform_move_xf c b req h hax hrel hb,
+      prepare_rapid_eq b [] [] _ (ofT req) [] h hd, prepared, hfin, hok, htr,
+      update_axes_eq b [] [] _ (ofT req) [] [] hfin, okAxes_none _ _ hb, write_eq]
+    refine ⟨trivial, ?_, ?_⟩
+    · rfl
+    · simp [absB', conv, partCodes, partAx, partWords]
